@@ -165,6 +165,11 @@ theorem hsOfUnitary_row0 (B : Basis ℂ d) (z : Fin (d * d)) (s : ℂ) (hB : ONH
   · simp [h]
 end hs
 
+/-- `hsOfUnitary_row0` instantiated (one-dimensional system, `U = 1`) -/
+example : (hsOfUnitary basis1 (Mat.one : Mat ℂ 1 1)).get ⟨0, by decide⟩ ⟨0, by decide⟩ = 1 := by
+  have := hsOfUnitary_row0 basis1 _ 1 onh0_basis1 (by simp) Mat.one (by simp) ⟨0, by decide⟩
+  simpa using this
+
 example : (frob2 (psdResid (Mat.one : Mat ℂ 2 2) Mat.one (Vec.ofFn fun _ => (((max (1 : ℝ) 0 : ℝ)) : ℂ)))).re ≤ (0 : ℝ) ^ 2 := by
   simp [frob2, psdResid, fsum_eq_sum, diag, adj, conj_eq_star, Fin.sum_univ_two, Vec.get_ofFn]
 
